@@ -41,7 +41,7 @@ Lemma server_hooks_grammar : forall sc l c, 1 <= c -> let s := run (init sc) l i
   grammar_prefix (server_hooks s c).
 Proof.
   intros. pose proof (server_hooks_by_pc sc l c H) as E. fold s in E. rewrite E. unfold grammar_prefix.
-  destruct (c_pc (getc s c)) as [| | | | | | | | | |x]; simpl; auto 6. destruct x; simpl; auto 6.
+  destruct (c_pc (getc s c)) as [| | | | | | | | | | | |x]; simpl; auto 6. destruct x; simpl; auto 6.
 Qed.
 
 Lemma server_pairing_partial : forall sc l c x, 1 <= c -> let s := run (init sc) l in
